@@ -134,6 +134,17 @@ INVALID = [
     ("slotted-conveyor-capacity-0", dict(edge1="slot", b1=dict(capacity=0, delay=1, accumulating=1)), "B1"),
     ("buffer-unknown-mode", dict(b1=dict(capacity=2, mode="XYZ")), "B1"),
     ("buffer-mode-lowercase", dict(b1=dict(capacity=2, mode="fifo")), "B1"),
+    ("buffer-mode-empty-string", dict(b1=dict(capacity=2, mode="")), "B1"),
+    ("buffer-mode-truncated-F", dict(b1=dict(capacity=2, mode="F")), "B1"),
+    ("buffer-mode-truncated-LIF", dict(b1=dict(capacity=2, mode="LIF")), "B1"),
+    ("buffer-mode-truncated-IFO", dict(b1=dict(capacity=2, mode="IFO")), "B1"),
+    ("buffer-mode-concatenated", dict(b1=dict(capacity=2, mode="FIFOLIFO")), "B1"),
+    ("buffer-mode-padded", dict(b1=dict(capacity=2, mode="FIFO ")), "B1"),
+    ("buffer-mode-none", dict(b1=dict(capacity=2, mode=None)), "B1"),
+    ("buffer-mode-list", dict(b1=dict(capacity=2, mode=["FIFO"])), "B1"),
+    ("buffer-delay-string", dict(b1=dict(capacity=2, delay="1")), "B1"),
+    ("machine-work-capacity-0", dict(mach=dict(processing_delay=0.5, work_capacity=0)), "M"),
+    ("fleet-capacity-float", dict(edge1="fleet", b1=dict(capacity=2.5)), "B1"),
     ("buffer-negative-delay", dict(b1=dict(capacity=2, delay=-1)), "B1"),
     ("buffer-negative-delay-callable", dict(b1=dict(capacity=2, delay=lambda: -0.5)), "B1"),
     ("machine-negative-processing-delay", dict(mach=dict(processing_delay=-1)), "M"),
